@@ -100,3 +100,9 @@ reg("C13",
     "Every variant is compiled by real rustc against the repository's proc-macro (no_std variants metadata-only) and executed; it must compile and print exactly the behaviour trace (comparison tables, recorded hash feeds, clone / default / operator results, Debug-equals-std-twin flags) of the neutral program. Exhaustive within the dictionary and bound.",
     "Bound: dictionary = 22 names the expansion introduces (incl. pre-fix ones), 3 raw keywords, 14 prelude names, 4 lifetimes; roles type / field / variant / type parameter / const parameter / lifetime; quick: full dictionary on the three all-traits programs in plain + shadowed scope, generator names on the rest (1919 cases); thorough: everything incl. two simultaneous renamings on the all-traits programs (74777 cases). Names starting with __ are excluded (reserved).",
     "DESIGN.md 5/C13")
+
+reg("C12",
+    "bounded exhaustive enumeration of shapes (incl. enums without variants) x generics options x naming (raw identifiers) x extra attributes x supertrait-closed derive lists x entry points, compiled with the real proc-macro next to a std-derived twin and executed on every value / ordered pair x 14 format specs",
+    "The std-derived twin is compiled alone first; where it compiles, the program deriving the listed traits with derive_ex (the remaining ones with the standard derive on the same type) must compile too and Clone / clone_from, Debug (14 specs), Default, ==, !=, partial_cmp, <, cmp must agree with the twin on all values / ordered pairs, Hash feeds must be equal whenever == holds, Copy must be implemented. Exhaustive within the bound.",
+    "Bound: quick Sh(2 variants, 2 fields) x 12 lists + 6 representative shapes x one option at a time (8 generics options, raw identifiers incl. the type parameter, repr(C), non_exhaustive); thorough Sh(3,3) and 9 shapes x two options. Lists are supertrait-closed because a derive_ex impl (field-type bounds) cannot sit on a std-derived supertrait impl (parameter bounds) - see DESIGN.md.",
+    "DESIGN.md 5/C12")
